@@ -639,6 +639,38 @@ def transition_lemmas(ctx, fo):
                                 delta['M[%d,%d]' % (i, j)] = x
                 steps.append((lemmas.get(codes) if codes is not None else 'digit', o, delta))
             rep.floor('R3', 'paths through one character step', len(steps), 7, where(fo, some_t))
+            # the digit class is '0'..='9', all ten: read off the comparisons of c on the paths that take the digit step
+            dig_ranges = set()
+            for nm_, o_, dl_ in steps:
+                if nm_ != 'digit' or not dl_:
+                    continue
+                lo_, hi_ = None, None
+                for c in o_.pc:
+                    if c[0] != 'cond' or not (isinstance(c[1], tuple) and c[1][0] == 'cmp'):
+                        continue
+                    op_, a_, b_ = c[1][1], c[1][2], c[1][3]
+                    if b_ == SYM('c') and is_num_(a_):
+                        a_, b_ = b_, a_
+                        op_ = {'Lt': 'Gt', 'Le': 'Ge', 'Gt': 'Lt', 'Ge': 'Le'}.get(op_, op_)
+                    if a_ != SYM('c') or not is_num_(b_):
+                        continue
+                    k_ = int(b_[1])
+                    if not c[2]:
+                        op_ = {'Lt': 'Ge', 'Le': 'Gt', 'Gt': 'Le', 'Ge': 'Lt'}.get(op_, op_)
+                    if op_ == 'Ge':
+                        lo_ = k_ if lo_ is None else max(lo_, k_)
+                    elif op_ == 'Gt':
+                        lo_ = k_ + 1 if lo_ is None else max(lo_, k_ + 1)
+                    elif op_ == 'Le':
+                        hi_ = k_ if hi_ is None else min(hi_, k_)
+                    elif op_ == 'Lt':
+                        hi_ = k_ - 1 if hi_ is None else min(hi_, k_ - 1)
+                if lo_ is not None or hi_ is not None:
+                    dig_ranges.add((lo_, hi_))
+            if dig_ranges:
+                rep.check(dig_ranges == {(48, 57)}, 'R3', 'digit-class-is-0-to-9', where(fo, some_t), "the digit step is taken for '0'..='9'",
+                          'the digit step is taken for the characters %s, not for exactly \'0\'..=\'9\''
+                          % sorted((chr(a) if a else None, chr(b) if b else None) for a, b in dig_ranges))
 
             def same(a, b):
                 try:
@@ -984,3 +1016,7 @@ def run(ctx):
         else:
             rep.fail('R5', 'C10:' + o['instance'], o['construct'], o['why'], o['reason'])
     rep.floor('R5', 'imported obligations on WyckoffSite::new (C10.R5)', n, 3)
+    from .common import import_obligations
+    # "never crashes the program": the constructors that parse the group tables pass the error on (C20.R1 for from_group / WyckoffSite)
+    import_obligations(ctx, 'C20', 'R6', only_rules={'R1'}, floor=0, only_instances=lambda k: 'from_group' in k or 'WyckoffSite' in k)
+
